@@ -172,6 +172,7 @@ theorem openAndOverwrite_meaning (o : Oracle W) (w : W) (t : FdTable) (r : Redir
         cases hp
         exact ⟨overwrite_closed t tfd, fun _ _ h => by cases h⟩
       | malformed => simp only at hp; cases hp
+      | negOne => simp only at hp; cases hp
       | fd n =>
         simp only at hp hok ⊢
         cases hg : t.get n with
@@ -222,6 +223,7 @@ theorem Meaning.of_same_source (o : Oracle W) (t t' : FdTable) (r : Redir) (a : 
     | fd n => simp only at h ⊢; rw [← hsrc input n rfl]; exact h
     | closeIt => exact h
     | malformed => exact h
+    | negOne => exact h
   | file op path => exact h
   | fileCs op path => exact h
   | hereDoc c => exact h
